@@ -1,7 +1,7 @@
 (* C03 -- property theorems only.  Proofs live in C03/Proofs*.v. *)
 From Coq Require Import NArith List Bool Arith.
 From DV Require Import Base.Outcome Base.Bytes Base.Names C03.Gen C03.Model C03.Spec
-  C03.ProofsBuilder C03.ProofsBuilder2.
+  C03.ProofsBuilder C03.ProofsBuilder2 C03.ModelWire C03.ProofsWire C03.ModelText C03.ProofsText.
 Import ListNotations.
 
 (* the transcribed NameBuilder code refines the abstract builder, for every
@@ -87,3 +87,64 @@ Theorem C03_dec_hex_error_not_atomic_refuted :
       snd (step None st' (OPush 99)) <> snd (step None st (OPush 99))).
 Proof. exact dec_hex_error_not_atomic_refuted. Qed.
 Print Assumptions C03_dec_hex_error_not_atomic_refuted.
+
+(* ---- validating constructors: Name::from_octets / from_slice and
+   RelativeName::from_octets / from_slice accept exactly the wire forms of
+   valid names; total *)
+Theorem C03_check_abs_iff : forall b, wf_bytes b ->
+  (check_abs b = Ok tt <-> exists n, valid_abs n /\ b = wire_abs n).
+Proof. exact check_abs_iff. Qed.
+Print Assumptions C03_check_abs_iff.
+
+Theorem C03_check_rel_iff : forall b, wf_bytes b ->
+  (check_rel b = Ok tt <-> exists n, valid_rel n /\ b = wire_rel n).
+Proof. exact check_rel_iff. Qed.
+Print Assumptions C03_check_rel_iff.
+
+Theorem C03_check_total : forall b, no_panic (check_abs b) /\ no_panic (check_rel b).
+Proof. exact check_total. Qed.
+Print Assumptions C03_check_total.
+
+Theorem C03_label_from_slice_iff : forall s, label_from_slice s = Ok s <-> (length s <= 63)%nat.
+Proof. exact label_from_slice_iff. Qed.
+Print Assumptions C03_label_from_slice_iff.
+
+Theorem C03_chain_abs_valid : forall l r, valid_rel l -> valid_abs r ->
+  chain_new (wire_len l) (wire_len r + 1) = Ok tt -> valid_abs (l ++ r).
+Proof. exact chain_abs_valid. Qed.
+Print Assumptions C03_chain_abs_valid.
+
+Theorem C03_chain_rel_valid : forall l r, valid_rel l -> valid_rel r ->
+  chain_new (wire_len l) (wire_len r) = Ok tt -> chain_relative_255 l r = false -> valid_rel (l ++ r).
+Proof. exact chain_rel_valid. Qed.
+Print Assumptions C03_chain_rel_valid.
+
+(* the known finding chain_relative_255 *)
+Theorem C03_chain_limit_refuted :
+  let l := repeat lab9w 25 in let r := [[49;50;51;52]%N] in
+  valid_rel l /\ valid_rel r /\ chain_new (wire_len l) (wire_len r) = Ok tt /\
+  chain_relative_255 l r = true /\ ~ valid_rel (l ++ r).
+Proof. exact chain_limit_refuted. Qed.
+Print Assumptions C03_chain_limit_refuted.
+
+(* ---- round trips *)
+Theorem C03_display_parse_roundtrip : forall n, valid_abs n ->
+  name_from_chars None (display_name n) = Ok (wire_abs n).
+Proof. exact display_parse_roundtrip. Qed.
+Print Assumptions C03_display_parse_roundtrip.
+
+Theorem C03_wire_roundtrip : forall n, valid_abs n ->
+  check_abs (wire_abs n) = Ok tt /\ decode_abs (wire_abs n) = inl (Some (n, [])) /\
+  check_rel (wire_rel n) = Ok tt.
+Proof. exact wire_roundtrip. Qed.
+Print Assumptions C03_wire_roundtrip.
+
+(* whatever the string, a name returned by Name::from_chars (FromStr),
+   RelativeName::from_chars or UncertainName::from_chars is valid *)
+Theorem C03_from_chars_valid : forall cs,
+  (forall w, name_from_chars None cs = Ok w -> exists n, valid_abs n /\ w = wire_abs n) /\
+  (forall w, rel_from_chars None cs = Ok w -> exists n, valid_rel n /\ w = wire_rel n) /\
+  (forall f w, uncertain_from_chars None cs = Ok (f, w) ->
+      exists n, valid_rel n /\ w = if f then wire_abs n else wire_rel n).
+Proof. exact from_chars_valid. Qed.
+Print Assumptions C03_from_chars_valid.
